@@ -121,7 +121,7 @@ def records_nontrivial(entries: list) -> bool:
     return False
 
 
-def _config(allow_long: bool):
+def _config(allow_long: bool, cpus: int = 1):
     """ a fresh Config for every case (the parser is built once per process) """
     from antismash.config import build_config, destroy_config
     if "parser" not in _STATE:
@@ -129,7 +129,7 @@ def _config(allow_long: bool):
         from antismash.main import get_all_modules
         _STATE["parser"] = build_parser(from_config_file=True, modules=get_all_modules())
     destroy_config()
-    args = ["--cpus", "1", "--minlength", "0", "--genefinding-tool", "none",
+    args = ["--cpus", str(int(cpus)), "--minlength", "0", "--genefinding-tool", "none",
             "--allow-long-headers" if allow_long else "--no-allow-long-headers"]
     return build_config(args, parser=_STATE["parser"], isolated=True)
 
@@ -155,7 +155,8 @@ def _preprocess(spec: dict):
     from antismash.config import destroy_config
     from antismash.support import genefinding
     entries = spec["records"]
-    options = _config(bool(spec["long"]))
+    cpus = int(spec.get("cpus") or 1)
+    options = _config(bool(spec["long"]), cpus)
     try:
         records = [_make_input_record(i, entry) for i, entry in enumerate(entries)]
         try:
@@ -173,6 +174,16 @@ def _preprocess(spec: dict):
             raise Violation("preprocess_total", {"exception": type(err).__name__, "message": str(err)[:300]})
     finally:
         destroy_config()
+    if cpus > 1:
+        # the code under test forks its own worker pool (antismash.common.subprocessing.parallel_function);
+        # nothing may be left running after the case.  (Such cases run in the runner's main process only:
+        # a daemonic shard worker cannot have children.)
+        import multiprocessing
+        left = multiprocessing.active_children()
+        if left:
+            for child in left:
+                child.terminate()
+            raise RuntimeError(f"{len(left)} worker processes outlived pre_process_sequences")
     by_marker = {}
     for record in processed:
         by_marker.setdefault(record.description, []).append(record)
@@ -339,6 +350,22 @@ def check_length(spec: dict) -> dict:
 
 # --------------------------------------------------------------------------- crowds (1000+ colliding ids)
 
+def check_parallel(spec: dict) -> dict:
+    """ the same clauses with options.cpus > 1: pre_process_sequences then sends the records through its own
+        process pool, so the returned records are copies; all record clauses and the length clauses are judged
+        on one run.  The statement does not fix the number of CPUs. """
+    entries = spec["records"]
+    results, rejection = _preprocess(spec)
+    cpus_label = f"cpus_{int(spec.get('cpus') or 1)}"
+    if results is None:
+        label = _judge_rejection(spec, rejection)
+        return {"nontrivial": records_nontrivial(entries),
+                "classes": _record_classes(spec, None, True) + [label, cpus_label]}
+    _judge_records(spec, results)
+    _judge_length(spec, results)
+    return {"nontrivial": records_nontrivial(entries), "classes": _record_classes(spec, results, False) + [cpus_label]}
+
+
 def expand_crowd(spec: dict) -> dict:
     """ compact spec -> ordinary record-list spec.  {"blocks": [{"template": "x{:04d}", "first": 0, "count": n}
         or {"ids": [...]}], "long": bool}; a template without a field is repeated verbatim """
@@ -350,7 +377,7 @@ def expand_crowd(spec: dict) -> dict:
         for number in range(block.get("first", 0), block.get("first", 0) + block["count"]):
             ids.append(block["template"].format(number))
     return {"records": [{"id": identifier, "name": f"n{index}"} for index, identifier in enumerate(ids)],
-            "long": bool(spec["long"])}
+            "long": bool(spec["long"]), "cpus": int(spec.get("cpus") or 1)}
 
 
 def _shorten_detail(detail):
@@ -728,6 +755,9 @@ SUBCHECKS = {
     "records_enum": check_records,
     "length_enum": check_length,
     "crowd_enum": check_crowd,
+    "parallel_enum": check_parallel,
+    "parallel": check_parallel,
+    "parallel_crowd_enum": check_crowd,
     "unique_id_enum": check_unique_id,
     "unique_id": check_unique_id,
 }
@@ -907,8 +937,11 @@ def _new_id(draw, ids: list, stems: list, emphasis: str, dirty: bool, big: bool)
 
 
 @st.composite
-def id_list_specs(draw, emphasis: str = "collide"):
+def id_list_specs(draw, emphasis: str = "collide", cpus_choices: tuple = ()):
     allow_long = False if emphasis == "length" else draw(st.sampled_from([True, False]))
+    if cpus_choices:
+        allow_long = draw(st.sampled_from([False, False, False, True]))
+    cpus = draw(st.sampled_from(list(cpus_choices))) if cpus_choices else None
     count = draw(st.sampled_from([1, 2, 2, 2, 3, 3, 3, 4, 4, 5, 6, 8, 12]))
     stems = draw(st.lists(_safe_text(1, 9), min_size=1, max_size=2))
     # case-level themes, so that the two known defects cannot hide everything else:
@@ -970,6 +1003,8 @@ def id_list_specs(draw, emphasis: str = "collide"):
         else:
             name = draw(_insert_illegal(draw(_safe_text(1, 20))))
         records.append({"id": identifier, "name": name})
+    if cpus:
+        return {"records": records, "long": allow_long, "cpus": cpus}
     return {"records": records, "long": allow_long}
 
 
@@ -1005,6 +1040,38 @@ def enum_record_lists(with_quadruples: bool = False):
             for allow_long in (False, True):
                 for combo in itertools.product(small, repeat=4):
                     yield {"records": [{"id": i, "name": i} for i in combo], "long": allow_long}
+    return cases
+
+
+def enum_parallel_lists(thorough: bool = False):
+    """ ids that shorten identically (two versions of one accession, same contig number and first seven characters,
+        a literal shortened / numbered form already present), every ordered pair (thorough: triple) with
+        options.cpus 2 and 4; a few crowds """
+    pool = ["NZ_AMZN01000079.1", "NZ_AMZN01000079.2", "NZ_AMZN01000079", "sampleAAAA_lib1.contig5",
+            "sampleAAAA_lib2.contig5", "c00005_sampleA..", "sampleAAAA_l_0", "abcdefghijklmnopq"]
+
+    def cases():
+        import itertools
+        for cpus in (2, 4):
+            for combo in itertools.product(pool, repeat=2):
+                yield {"records": [{"id": i, "name": i} for i in combo], "long": False, "cpus": cpus}
+        for combo in itertools.product(pool[:2] + pool[3:5], repeat=3):
+            yield {"records": [{"id": i, "name": i} for i in combo], "long": False, "cpus": 3}
+        if thorough:
+            for cpus in (2, 4):
+                for allow_long in (False, True):
+                    for combo in itertools.product(pool, repeat=3):
+                        yield {"records": [{"id": i, "name": i} for i in combo], "long": allow_long, "cpus": cpus}
+    return cases
+
+
+def enum_parallel_crowds():
+    def cases():
+        for cpus in (2, 4):
+            yield {"blocks": [{"template": "metagenome-contig7-bin{:04d}", "count": 12}], "long": False, "cpus": cpus}
+            yield {"blocks": [{"template": "NZ_ABCDEF0123456.{}", "first": 1, "count": 9}], "long": False, "cpus": cpus}
+            yield {"blocks": [{"template": "abcdefghijklmn", "count": 12}], "long": False, "cpus": cpus}
+            yield {"blocks": [{"template": "sampleAAAA_lib{}.contig5", "count": 30}], "long": False, "cpus": cpus}
     return cases
 
 
@@ -1238,6 +1305,10 @@ def run(ctx) -> None:
     ctx.enum("crowd_enum", enum_crowds(ctx.thorough), shards=ctx.pick(8, 16))
     ctx.enum("unique_id_enum", enum_unique_ids(), shards=ctx.pick(4, 8))
     ctx.enum("genes_enum", enum_gene_variants(ctx.thorough), shards=ctx.pick(4, 8))
+    # options.cpus > 1: pre_process_sequences forks its own pool, so these run in this process (shards=1)
+    ctx.enum("parallel_enum", enum_parallel_lists(ctx.thorough), shards=1)
+    ctx.enum("parallel_crowd_enum", enum_parallel_crowds(), shards=1)
+    ctx.hyp("parallel", id_list_specs("collide", cpus_choices=(2, 4)), max_examples=ctx.pick(60, 1200), shards=1)
     ctx.hyp("unique_id", unique_id_specs(), max_examples=ctx.pick(600, 8000), shards=ctx.pick(4, 8))
     ctx.hyp("records", id_list_specs("collide"), max_examples=ctx.pick(3000, 60000), shards=shards)
     ctx.hyp("length", id_list_specs("length"), max_examples=ctx.pick(1500, 30000), shards=shards)
